@@ -10,6 +10,7 @@ import Rngs.Model.RandCore
 import Rngs.Lib.BlockRefine
 import Rngs.Lib.BlockRefineInst
 import Rngs.Lib.ExtTieBlock
+import Rngs.Model.XorShift
 import Rngs.Lib.SeedLemmas
 namespace Rngs
 
@@ -19,6 +20,17 @@ namespace Rngs
 def whileF {σ : Type} : Nat → (σ → Bool) → (σ → σ) → σ → σ
   | 0, _, _, s => s
   | fuel + 1, cond, body, s => if cond s then whileF fuel cond body (body s) else s
+
+/-- `loop { … break … }` whose body draws from a byte source: the body fails with the source's error or finishes one
+    iteration saying whether to go on (`true`) or to leave the loop (`break`: `false`).  At most `fuel` iterations; running
+    out of fuel is `diverged`, as in the model (`XorShift.fromRngFuel`). -/
+def loopF {ρ β : Type} : Nat → (β → ρ → Except SrcErr (Bool × β) × ρ) → β → ρ → Except SrcErr β × ρ
+  | 0, _, _, r => (.error .diverged, r)
+  | fuel + 1, body, b, r =>
+    match body b r with
+    | (.ok (true, b'), r') => loopF fuel body b' r'
+    | (.ok (false, b'), r') => (.ok b', r')
+    | (.error e, r') => (.error e, r')
 
 /-- `buf[off .. off + src.length].copy_from_slice(src)` -/
 def splice (buf : List U8) (off : Nat) (src : List U8) : List U8 :=
@@ -370,5 +382,42 @@ theorem except_pair_eta (x : Except SrcErr σ × ρ) :
   obtain ⟨r, s⟩ := x
   cases r <;> rfl
 end
+
+/-- XorShiftRng::from_rng / try_from_rng: redraw 16 bytes while they are all zero -/
+theorem loopF_redraw {ρ : Type} (fill : TryFill ρ) (body : List U8 → ρ → Except SrcErr (Bool × List U8) × ρ)
+    (hb : ∀ b r, body b r = (match fill r 16 with
+      | (.ok bytes, r') => if !(isAllZero bytes) then (.ok (false, bytes), r') else (.ok (true, bytes), r')
+      | (.error e, r') => (.error e, r'))) :
+    ∀ (fuel : Nat) (b : List U8) (r : ρ),
+      (match loopF fuel body b r with
+        | (.ok b, r) => (.ok (S4.decode32 b), r)
+        | (.error e, r) => (.error e, r)) = XorShift.fromRngFuel fill fuel r := by
+  intro fuel
+  induction fuel with
+  | zero => intro b r; rfl
+  | succ fuel ih =>
+    intro b r
+    unfold loopF XorShift.fromRngFuel
+    rw [hb]
+    cases hx : fill r 16 with
+    | mk res r' =>
+      cases res with
+      | error e => rfl
+      | ok bytes =>
+        by_cases hz : isAllZero bytes = true
+        · simp only [hz, Bool.not_true, Bool.false_eq_true, if_false]
+          exact ih bytes r'
+        · simp only [hz, Bool.not_false, if_true]
+
+theorem XorShift.tryFromRngFuel_eq {ρ : Type} (fill : TryFill ρ) : ∀ (fuel : Nat) (r : ρ),
+    XorShift.tryFromRngFuel fill fuel r = XorShift.fromRngFuel fill fuel r := by
+  intro fuel
+  induction fuel with
+  | zero => intro r; rfl
+  | succ fuel ih =>
+    intro r
+    unfold XorShift.tryFromRngFuel XorShift.fromRngFuel
+    cases hx : fill r 16 with
+    | mk res r' => cases res <;> simp [ih]
 
 end Rngs
